@@ -46,7 +46,7 @@ Inductive io_err := NotFound.
 Definition read_as_utf8 (w : world) : option text :=      (* None = Err(NotFound) *)
   match file w with Some c => Some (normalise c) | None => None end.
 
-(* after the fix (C20-F16): !std::env::var_os("UPDATE_GOLDEN").unwrap_or_default().is_empty() *)
+(* std::env::var_os("UPDATE_GOLDEN").is_some_and(|v| !v.is_empty())   (as repaired: C20-F16) *)
 Definition is_update_golden (w : world) : bool :=
   match env w with
   | Some (_ :: _) => true
